@@ -293,6 +293,8 @@ C02_CATALOGUE = {
         ("s110", "s110", ["bc", "bd", "cd"], None),
         ("sh00", "sh00", ["bc", "bd", "cd"], None),
         ("s1hh", "s1hh", ["bc", "bd", "cd"], None),
+        # identical spin-0 particles (symmetrised amplitude: the exchange term is computed on permuted momenta with the same options) next to a spin-1 final
+        ("sid0", "sid0", ["bc", "cd", "cd2"], None),
     ],
     "four": [
         ("f4", "f4", ["cas", "cas2", "br"], None),
